@@ -204,7 +204,7 @@ pub fn run(ctx: &Ctx) -> i32 {
     let mut acc0 = Acc::new();
     direct_checks(&mut acc0);
     rep.acc.merge(acc0);
-    let acc = run_sharded(ctx.jobs, |shard| {
+    let acc = run_sharded(ctx, |shard| {
         let mut acc = Acc::new();
         for k in 0..per_shard {
             let mut rng = Rng::derive(ctx.seed, 19_000 + shard as u64, k as u64);
